@@ -158,6 +158,16 @@ PROPS["C13"] = Prop(
 )
 PARAMS["C13"] = {"rule": "element types u8, i32, f64 (NaN, +-inf, -0.0), String, GenericArray<i32,U2>, GenericArray<f64,U2>: all ordered pairs over a 3-letter alphabet for N in 0..=3 (N = 4: 2 letters in quick, 3 in thorough) plus every array against itself as the same object; seeded near-equal pairs for N in {2,3,4,8,16,33,100}; ==, !=, partial_cmp, <, <=, >, >=, cmp; recording-Hasher stream and DefaultHasher value for every array; Debug under 15 option sets ({:?}, {:#?}, width/alignment/fill, +, 0-pad, x/X, #x, precision) x 6 element types; HashMap and BTreeMap lookups by &[T]."}
 
+PROPS["C19"] = Prop(
+    "C19", ["GA.Props.C19"],
+    [Engine("fill", scen.fill, sig=lambda l: " ".join(l.split()[:2]))],
+    trusted=[KERNEL, TRANSLATOR, HARNESS,
+             "modelled, not verified: zeroize's `IterMut<Z>: Zeroize` (calls the element's zeroize on every item), the const-default crate's impls for primitives and `[T; 0]`, const evaluation of struct literals; field placement is C01's layout result (repr(C), no padding)"],
+    assumptions=["the element's own zeroize / DEFAULT are parameters of the theorems (any function, any value); the engine instantiates them with five element types"],
+    nontrivial=lambda s, impl: " n=0 " not in s and not s.endswith(" n=0"),
+)
+PARAMS["C19"] = {"rule": "every N in 0..=64 and {96,127,128,129,255,256,257,511,512,513,1000,1023,1024} (every even/odd storage shape to depth 10) x element types u8, u64, [u8;3], Slot{id kept, wiped set, secret cleared; DEFAULT not all-zero}, GenericArray<Slot,U3>: const_default() element-wise vs T::DEFAULT, vs Default::default(), vs the compile-time evaluated associated constants; zeroize() on seeded non-zero contents element-wise vs zeroizing each element by hand."}
+
 PROPS["C17"] = Prop(
     "C17", ["GA.Props.C17"],
     [Engine("serde", scen.serde, sig=lambda l: l.split()[0] + "/" + ("script" if "steps=" in l else "fmt"))],
